@@ -97,7 +97,7 @@ UNITS = {
     "server": {
         "uses": [],
         "preludes": ["shims/core.rs", "shims/bytes.rs", "shims/env.rs", "shims/io.rs", "shims/cursor.rs"],
-        "specs": ["contracts/spec/hv.rs", "contracts/spec/request.rs", "contracts/spec/http.rs", "contracts/spec/lookup.rs", "contracts/spec/cors.rs", "contracts/spec/headers.rs", "contracts/spec/frames.rs", "contracts/spec/app.rs", "contracts/spec/server.rs"],
+        "specs": ["contracts/spec/hv.rs", "contracts/spec/crlf.rs", "contracts/spec/request.rs", "contracts/spec/http.rs", "contracts/spec/lookup.rs", "contracts/spec/cors.rs", "contracts/spec/headers.rs", "contracts/spec/frames.rs", "contracts/spec/app.rs", "contracts/spec/server.rs"],
         "sources": [
             SYMBOL_SRC,
             ("src/http/mod.rs", ["struct:Version", "const:VERSION"]),
@@ -121,7 +121,7 @@ UNITS = {
     },
     "request_parse": {
         "preludes": ["shims/core.rs", "shims/bytes.rs", "shims/io.rs", "shims/cursor.rs"],
-        "specs": ["contracts/spec/hv.rs", "contracts/spec/lookup.rs", "contracts/spec/request.rs"],
+        "specs": ["contracts/spec/hv.rs", "contracts/spec/lookup.rs", "contracts/spec/crlf.rs", "contracts/spec/request.rs"],
         "sources": [
             SYMBOL_SRC,
             ("src/http/mod.rs", ["struct:Version", "const:VERSION", "struct:HTTP", "fn:HTTP::version_list"]),
@@ -256,7 +256,7 @@ UNITS = {
     },
     "response_parse": {
         "preludes": ["shims/core.rs", "shims/bytes.rs", "shims/cursor.rs"],
-        "specs": ["contracts/spec/hv.rs", "contracts/spec/frames.rs", "contracts/spec/request.rs", "contracts/spec/response_parse.rs"],
+        "specs": ["contracts/spec/hv.rs", "contracts/spec/frames.rs", "contracts/spec/crlf.rs", "contracts/spec/request.rs", "contracts/spec/response_parse.rs"],
         "sources": [
             SYMBOL_SRC,
             ("src/http/mod.rs", ["struct:Version", "const:VERSION", "struct:HTTP", "fn:HTTP::version_list:assume"]),
@@ -276,6 +276,19 @@ UNITS = {
                                      "fn:Response::parse_raw_response_via_cursor", "fn:Response::parse"]),
         ],
         "contracts": ["contracts/request.vc", "contracts/response_parse.vc"],
+    },
+    "multipart": {
+        "preludes": ["shims/core.rs", "shims/bytes.rs", "shims/cursor.rs"],
+        "specs": ["contracts/spec/hv.rs", "contracts/spec/crlf.rs", "contracts/spec/multipart.rs"],
+        "sources": [
+            SYMBOL_SRC,
+            ("src/ext/string_ext/mod.rs", ["struct:StringExt", "fn:StringExt::truncate_new_line_carriage_return", "fn:StringExt::filter_ascii_control_characters:assume"]),
+            ("src/header/mod.rs", ["struct:Header", "fn:Header::as_string", "fn:Header::parse_header"]),
+            ("src/body/multipart_form_data/mod.rs", ["struct:FormMultipartData", "struct:Part", "fn:FormMultipartData::is_delimiter", "fn:FormMultipartData::parse",
+                                                     "fn:FormMultipartData::parse_form_part_recursively", "fn:FormMultipartData::extract_boundary",
+                                                     "fn:FormMultipartData::generate_part", "fn:FormMultipartData::generate"]),
+        ],
+        "contracts": ["contracts/request.vc", "contracts/multipart.vc"],
     },
 }
 for k, v in UNITS.items():
